@@ -83,6 +83,14 @@ public:
    /// @since  1.15.0, 16.10.2018
    std::string getAttribute( const std::string& attr_name) const;
 
+   /// Returns if this object or one of its parent objects stores an attribute
+   /// with the given name.
+   ///
+   /// @param[in]  attr_name
+   ///    The name of the attribute to look for.
+   /// @return  \c true if an attribute with this name is found.
+   bool hasAttribute( const std::string& attr_name) const;
+
 private:
    /// Pointer to the optional parent/master log attributes object.
    const LogAttributes* const  mpOuter = nullptr;
